@@ -52,7 +52,7 @@ func main() {
 		if len(os.Args) >= 5 && os.Args[3] == "--repo" {
 			repo = os.Args[4]
 		}
-		prog, err := fw.Load(fw.LoadOpts{Dir: repo})
+		prog, err := fw.Load(fw.LoadOpts{Dir: repo, Inline: os.Getenv("GMSL_INLINE") != "", KeepName: props.KeepName})
 		if err != nil {
 			fmt.Println(err)
 			os.Exit(2)
@@ -66,6 +66,21 @@ func main() {
 		} else {
 			fw.DumpFunc(prog, os.Args[2])
 		}
+	case "inline-dump":
+		// debugging aid: gmslverif inline-dump <func name substring> [--repo dir]: the inlined view of a function
+		if len(os.Args) < 3 {
+			usage()
+		}
+		repo := envOr("GMSL_REPO", "/repo")
+		if len(os.Args) >= 5 && os.Args[3] == "--repo" {
+			repo = os.Args[4]
+		}
+		prog, err := fw.Load(fw.LoadOpts{Dir: repo, Inline: true, KeepName: props.KeepName})
+		if err != nil {
+			fmt.Println(err)
+			os.Exit(2)
+		}
+		fw.DumpInlined(prog, os.Args[2])
 	case "check":
 		if len(os.Args) < 3 {
 			usage()
@@ -116,6 +131,7 @@ func runAll(repo, verif string) int {
 	}
 	sort.Strings(ids)
 	rc := 0
+	ctxs := map[string]*fw.Ctx{}
 	for _, id := range ids {
 		c := fw.NewCtx(prog, id, "quick")
 		func() {
@@ -126,6 +142,31 @@ func runAll(repo, verif string) int {
 			}()
 			props.All[id](c)
 		}()
+		ctxs[id] = c
+	}
+	// second pass: the same rules on the inlined view (one load)
+	if os.Getenv("GMSL_NO_INLINE") == "" {
+		if inl, err := fw.Load(fw.LoadOpts{Dir: repo, Inline: true, KeepName: props.KeepName}); err == nil {
+			for _, id := range ids {
+				c2 := fw.NewCtx(inl, id, "quick")
+				func() {
+					defer func() {
+						if r := recover(); r != nil {
+							c2.Undecided("internal", "analyser panic on the inlined view", fmt.Sprint(r))
+						}
+					}()
+					props.All[id](c2)
+				}()
+				ctxs[id].CombineViews(c2)
+			}
+		} else {
+			for _, id := range ids {
+				ctxs[id].Undecided("load", "inlined view", err.Error())
+			}
+		}
+	}
+	for _, id := range ids {
+		c := ctxs[id]
 		r := c.Finish(verif, 0, "bin/gmslverif check all")
 		fmt.Printf("--- %s exit=%d\n", id, r)
 		if r != 0 {
@@ -167,6 +208,7 @@ func run(id, tier, repo, verif string) (code int) {
 			}
 		}()
 		fn(c)
+		evalInlined(c, fn, repo, id, tier)
 		if tier == "thorough" {
 			// re-evaluate under other build configurations (build-tagged files, 32-bit ints)
 			for _, cfg := range [][2]string{{"linux", "386"}, {"darwin", "arm64"}, {"windows", "amd64"}} {
@@ -183,4 +225,27 @@ func run(id, tier, repo, verif string) (code int) {
 		}
 	}()
 	return c.Finish(verif, seed, cmd)
+}
+
+// evalInlined evaluates the rules of one property on the inlined view of the repository
+// (fw/inline.go) and folds the verdicts into c.
+func evalInlined(c *fw.Ctx, fn func(*fw.Ctx), repo, id, tier string) {
+	if os.Getenv("GMSL_NO_INLINE") != "" {
+		return
+	}
+	inl, err := fw.Load(fw.LoadOpts{Dir: repo, Inline: true, KeepName: props.KeepName})
+	if err != nil {
+		c.Undecided("load", "inlined view", err.Error())
+		return
+	}
+	c2 := fw.NewCtx(inl, id, tier)
+	func() {
+		defer func() {
+			if r := recover(); r != nil {
+				c2.Undecided("internal", "analyser panic on the inlined view", fmt.Sprint(r))
+			}
+		}()
+		fn(c2)
+	}()
+	c.CombineViews(c2)
 }
